@@ -291,7 +291,9 @@ func (env *SpecEnv) btreeSpec(name string, n *ast.CallExpr) (SV, bool) {
 		if v, ok := st.ghost["$lastres."+nm]; ok {
 			return v, true
 		}
-		panic(fmt.Sprintf("lastres(%s): no call of that method before this point", nm))
+		// no call on this path (e.g. the clause is evaluated at an early return): an arbitrary error value — clauses
+		// about it are guarded by the condition under which the call happens
+		return e.freshSV(types.Universe.Lookup("error").Type(), "lastres.none."+nm, st.reach, false), true
 	case "lastarg":
 		nm := n.Args[0].(*ast.Ident).Name
 		idx := n.Args[1].(*ast.BasicLit).Value
